@@ -15,6 +15,7 @@ print(collections.Counter(r['kind'] for r in rows))
 seen=collections.Counter()
 import shutil
 shutil.rmtree('/tmp/dbgrows',ignore_errors=True); os.makedirs('/tmp/dbgrows')
+json.dump(rows, open('/tmp/dbgrows/rows.json','w'))
 json.dump({"fails":[(n,i,r) for n,i,r in fails], "scenarios":meta['scenarios']}, open('/tmp/dbgrows/fails.json','w'))
 for name,i,row in fails:
     seen[name]+=1
